@@ -14,7 +14,7 @@
    on the implementation by the mixture oracle of this check. *)
 From Coq Require Import List NArith ZArith QArith Arith Bool.
 From Coq Require Import Permutation.
-From PG Require Import Common.Strs Ring.Peg Ring.Reader Ring.Reader_proofs Graph.Mol Graph.Match Graph.Match_proofs Graph.Embed Graph.Embed_inst Graph.Centres_proofs Graph.Centres_equiv Graph.Scheme Graph.SchemeLoad Graph.Scheme_proofs Graph.Remap_proofs Graph.Descr_equiv Gen.Schemes.
+From PG Require Import Common.Strs Ring.Peg Ring.Reader Ring.Reader_proofs Graph.Mol Graph.Match Graph.Match_proofs Graph.Embed Graph.Embed_inst Graph.Centres_proofs Graph.Centres_equiv Graph.Scheme Graph.SchemeLoad Graph.Scheme_proofs Graph.Remap_proofs Graph.Descr_equiv Graph.Arom_equiv Gen.Schemes.
 Import ListNotations.
 
 (* no shipped pattern or descriptor has a molecule-level prefix (part of scheme_ok) *)
@@ -115,3 +115,26 @@ Theorem C04_descriptors_additive : forall m1 m2 sch, wf_mol m1 -> wf_mol m2 -> w
             == dict_get (descriptors_of sch m1 nm1) k + dict_get (descriptors_of sch m2 nm2) k.
 Proof. intros m1 m2 sch W1 W2 R1 R2 Gd CF nm1 nm2 L1 L2. exact (descriptors_union m1 m2 W1 W2 R1 R2 sch Gd CF nm1 nm2 L1 L2). Qed.
 Print Assumptions C04_descriptors_additive.
+
+(* ---------- at the level of GetDescriptors ---------- *)
+(* the aromatisation of a mixture acts component by component (ring list = the components' ring lists one after the other) *)
+Theorem C04_aromatize_of_mixture : forall m1 m2 s1 s2, wf_mol m1 -> wf_mol m2 -> wf_rings m1 -> wf_rings m2 ->
+  (forall r x, In r s1 -> In x r -> (x < natom m1)%nat) -> (forall r x, In r s2 -> In x r -> (x < natom m2)%nat) ->
+  aromatize (s1 ++ map (map (shift (natom m1))) s2) (union m1 m2) = union (aromatize s1 m1) (aromatize s2 m2).
+Proof. exact aromatize_union. Qed.
+
+(* GetDescriptors (model) on a mixture: it succeeds exactly when it succeeds on both components ("if either component cannot be
+   decomposed, neither can the pair"), and then returns the entry-wise sum (names_apart: see C04_descriptors_additive) *)
+Theorem C04_get_descriptors_of_mixture : forall m1 m2, wf_mol m1 -> wf_mol m2 -> wf_rings m1 -> wf_rings m2 ->
+  forall sch, (forall p, In p (s_patterns sch) -> good_frag (p_frag p)) -> (forall ds, In ds (s_descr sch) -> good_frag (d_frag ds)) ->
+  chain_free (s_remaps sch) ->
+  forall s1 s2, (forall r x, In r s1 -> In x r -> (x < natom m1)%nat) -> (forall r x, In r s2 -> In x r -> (x < natom m2)%nat) ->
+  let U := union m1 m2 in let sU := (s1 ++ map (map (shift (natom m1))) s2)%list in
+  ((exists D, get_descriptors sch sU U = SOk D) <->
+   (exists d1, get_descriptors sch s1 m1 = SOk d1) /\ (exists d2, get_descriptors sch s2 m2 = SOk d2))
+  /\ (forall D d1 d2 nm1 nm2, get_descriptors sch sU U = SOk D -> get_descriptors sch s1 m1 = SOk d1 -> get_descriptors sch s2 m2 = SOk d2 ->
+        assign_centres sch (aromatize s1 m1) = SOk nm1 -> assign_centres sch (aromatize s2 m2) = SOk nm2 ->
+        names_apart (aromatize s1 m1) (aromatize s2 m2) sch nm1 nm2 ->
+        forall k, dict_get D k == dict_get d1 k + dict_get d2 k).
+Proof. exact get_descriptors_union. Qed.
+Print Assumptions C04_get_descriptors_of_mixture.
